@@ -20,6 +20,7 @@ mod ratelimit;
 mod breaker;
 mod trend;
 mod contexts;
+mod pathfs;
 
 fn main() {
     let args: Vec<String> = std::env::args().collect();
@@ -57,6 +58,7 @@ fn main() {
         "trend-replay" => trend::replay(rest),
         "ctx-replay" => contexts::replay(rest),
         "ctx-load" => contexts::load(rest),
+        "pathfs-replay" => pathfs::replay(rest),
         "for-expand" => misc::for_expand(rest),
         "event-file" => misc::event_file(rest),
         other => {
